@@ -529,6 +529,111 @@ func Main(a int) int {
 	)
 }
 
+// Findings of the audit round (NOTES.md of the seeding agent, items 10 and 12) and what the shapes added for them ran
+// into. All of them had a small repair.
+func init() {
+	iarg := func(v int64) []Arg { return []Arg{{T: "int", I: v}} }
+	findings = append(findings,
+		finding{Key: kUsedGlobalDropped, What: "the usage analysis (analysis.go pickVarsFromNodes) does not look into the operand of a field selector unless it is an identifier, a literal or a selector (gs[0].x, (g).x, (*gp).x), into the keys of map literals, into the arguments of a deferred call and at a variable called as a function (f()): a package variable used only there is renamed to _, never initialised, and the reference reads Null",
+			Src: `package foo
+
+type T struct {
+	x int
+}
+
+var gs = [2]T{{x: 7}, {x: 1}}
+var k = 3
+var f = func() int { return 5 }
+
+func Main(a int) int {
+	m := map[int]int{k: 1}
+	return gs[0].x*100 + f()*10 + len(m) + a
+}
+`, Fn: "Main", Args: iarg(0), Res: "int", GoWant: "i:751"},
+		finding{Key: kLambdaInInit, What: "the body of a function literal met in init() or in the initialiser of a package variable is emitted right after the next init() body, in the middle of _initialize: execution falls into it, its RET ends _initialize (the remaining init() functions are skipped, an item stays on the stack) and the debug ranges of _initialize and the lambda overlap",
+			Src: `package foo
+
+var a int
+
+func init() {
+	g := func() int { return 3 }
+	a = g()
+}
+
+func init() {
+	a += 10
+}
+
+func Main(x int) int {
+	return a + x
+}
+`, Fn: "Main", Args: iarg(0), Res: "int", GoWant: "i:13"},
+		finding{Key: kInitReturn, What: "return inside init() is compiled to RET of the whole _initialize method: the init() functions after it never run",
+			Src: `package foo
+
+var a = 1
+
+func init() {
+	if a == 1 {
+		return
+	}
+	a = 2
+}
+
+func init() {
+	a += 10
+}
+
+func Main(x int) int {
+	return a + x
+}
+`, Fn: "Main", Args: iarg(0), Res: "int", GoWant: "i:11"},
+		finding{Key: kFuncLitVarDecl, What: "registerGlobals / convertGlobals walk into the body of a function literal assigned to a package variable: a var declaration there is registered as a global (a static slot nobody counted: STSFLD out of range) and its initialiser is compiled without a function scope (nil pointer dereference in the compiler when it reads a parameter)",
+			Src: `package foo
+
+var f = func(a0 int) int {
+	var v int
+	v += a0
+	return v
+}
+
+func Main(a int) int {
+	return f(a) + 1
+}
+`, Fn: "Main", Args: iarg(4), Res: "int", GoWant: "i:5"},
+		finding{Key: kFuncValueArgs, What: "the arguments of a call through a function value (a variable holding a function literal, a literal called in place, the result of another call) are not reversed in front of CALLA the way they are for declared functions: f(a, b) runs as f(b, a)",
+			Src: `package foo
+
+func Main(a int) int {
+	f := func(x int, y int) int { return x*10 + y }
+	return f(a, 2)
+}
+`, Fn: "Main", Args: iarg(3), Res: "int", GoWant: "i:32"},
+		finding{Key: kXorAssign, What: "x ^= y is refused (compiler could not convert token: ^=) although x = x ^ y and &=, |= compile (convertToken has no case for token.XOR_ASSIGN); &^ and &^= are refused the same way and stay outside the generated dialect",
+			Src: `package foo
+
+func Main(a int) int {
+	x := 170
+	x ^= a
+	return x
+}
+`, Fn: "Main", Args: iarg(240), Res: "int", GoWant: "i:90"},
+		finding{Key: kDerefStore, What: "(*p).f = v, (*p).f += v and (*p).f++ load *p (CONVERT to Struct: a copy of what p points to) and set the field of the copy: the store is lost",
+			Src: `package foo
+
+type T struct {
+	x int
+}
+
+func Main(a int) int {
+	p := &T{x: 1}
+	(*p).x = a
+	return p.x
+}
+`, Fn: "Main", Args: iarg(9), Res: "int", GoWant: "i:9"},
+	)
+}
+
 // runFinding executes the neo-go side of a reproduction and renders the outcome in the notation of the check.
 func runFinding(f finding) string {
 	nf, di, err, crash := compileProg("finding.go", f.Src)
